@@ -341,8 +341,8 @@ def ravelled_constructor(ctx):
     ctor, num = p.value
     prm = rec.get("params")
     ok = isinstance(prm, dict) and prm.get("p") is a and prm.get("frozen") is None and prm.get("k") is None
-    ctx.oblige("C12/get_ravelled_pytree_constructor/post/only_trainable_inexact_leaves_parameterised", bool(ok), [], props, kind="struct", fn=fnq)
-    ctx.oblige("C12/get_ravelled_pytree_constructor/post/parameter_count", num == 1, [], props, kind="struct", fn=fnq)
+    ctx.oblige("C12/get_ravelled_pytree_constructor/post/only_trainable_inexact_leaves_parameterised", bool(ok), [], props, kind="struct", fn=fnq, replay=dict(kind="c12", vars={}))
+    ctx.oblige("C12/get_ravelled_pytree_constructor/post/parameter_count", num == 1, [], props, kind="struct", fn=fnq, replay=dict(kind="c12", vars={}))
     pc = it.explore(lambda: ctor(Flat()))
     ok2 = len(pc) == 1 and pc[0].outcome == "return" and isinstance(pc[0].value, dict) and identical_leaves(pc[0].value.get("frozen"), frozen) and pc[0].value.get("k") is k_int
-    ctx.oblige("C12/get_ravelled_pytree_constructor/post/frozen_leaves_pass_through_constructor", bool(ok2), [], props, kind="struct", fn=fnq)
+    ctx.oblige("C12/get_ravelled_pytree_constructor/post/frozen_leaves_pass_through_constructor", bool(ok2), [], props, kind="struct", fn=fnq, replay=dict(kind="c12", vars={}))
